@@ -243,8 +243,15 @@ def _build_pool(tier, seed):
         ctx = RL.Ctx(rbs[k])
         old = RL.gen_tree(rnd, ctx, 0.4)
         new = RL.mutate(rnd, ctx, old, 0.4)
-        jobs.append({"kind": "syn", "rb": k, "rules": rbs[k], "vendor": rnd.choice(["huawei", "cisco", "arista"]), "old": RL.plain(old),
-                     "new": RL.plain(new), "acl": rnd.choice(acls + rb_acls[k] + rb_acls[k]), "comments": rnd.random() < 0.4})
+        job = {"kind": "syn", "rb": k, "rules": rbs[k], "vendor": rnd.choice(["huawei", "cisco", "arista"]), "old": RL.plain(old),
+               "new": RL.plain(new), "acl": rnd.choice(acls + rb_acls[k] + rb_acls[k]), "comments": rnd.random() < 0.4}
+        if rnd.random() < 0.3 and len(new) >= 2:
+            # reference tracking (generators that refer to each other's objects): the referring and the defining generator's output are
+            # handed to the patch step, which inserts them as ordering rules for THIS device
+            rows = list(RL.plain(new).items())
+            rnd.shuffle(rows)
+            job["ref"] = [dict(rows[:1]), dict(rows[1:2])]
+        jobs.append(job)
     return jobs
 
 
@@ -312,6 +319,15 @@ def run_job(job, snapshots=False):
         rb = sut.make_rb(RL.rule_text(job["rules"]), vendor)
         acl = compile_acl_text(job["acl"], vendor) if job["acl"] else None
         comments = job["comments"]
+        if job.get("ref"):
+            from annet.reference import RefTracker
+            ref_track = RefTracker()
+            RefCls, DefCls = type("RefGen", (), {}), type("DefGen", (), {})
+            ref_track.add(RefCls, DefCls)
+            ref_track.config(RefCls, RL.to_odict(job["ref"][0]))
+            ref_track.config(DefCls, RL.to_odict(job["ref"][1]))
+    if not job.get("ref"):
+        ref_track = None
     before = (json.dumps(old), json.dumps(new), _canon(rb) if snapshots else None, _acl_digest(acl) if snapshots else None)
     import signal
 
@@ -326,12 +342,16 @@ def run_job(job, snapshots=False):
         if job["kind"] == "order":
             d, paths = [], []   # (these rows are made for the orderer; the ordered configuration is what `annet gen` prints)
         else:
-            d, pt = _diff_and_patch(sut.Dev(hw), old, new, acl, None, comments, rb=rb)
+            d, pt = _diff_and_patch(sut.Dev(hw), old, new, acl, None, comments, ref_track=ref_track, rb=rb)
             fmt = sut.registry().match(hw).make_formatter(indent="")
             # (a command is handed to the deploy step together with its rule context, which selects %ifcontext deploy rules)
             paths = [list(p) + ["ctx=" + json.dumps(c, sort_keys=True, default=str)] if c else list(p) for p, c in fmt.cmd_paths(pt).items()]
         oc = Orderer(rb["ordering"], hw.vendor).order_config(new)
         res = ["ok", _plain_diff(d), paths, [[k, json.dumps(v)] for k, v in oc.items()]]
+        if job["kind"] != "syn":
+            # the shipped rulebook this hardware gets (rendered per model): the same in a fresh process and after any other models
+            import hashlib
+            res.append(hashlib.sha1(json.dumps(_canon(rb), default=str).encode()).hexdigest())
     except _Timeout:
         res = ["timeout"]     # a time budget hit is inconclusive, never a violation
     except Exception as e:
@@ -500,6 +520,8 @@ def check(case):
             labels.append("shipped-ordering-job")
         if job["kind"] == "vlan":
             labels.append("vlan-list-job")
+        if job.get("ref"):
+            labels.append("reference-tracking-job")
         if job["kind"] == "syn" and res[0] == "ok":
             # absolute oracle for the mutating logic: every call sees a pristine rule, so its removal command carries exactly one mark
             for p in res[2]:
@@ -519,6 +541,8 @@ def check(case):
 def _first_diff(a, b):
     if a[0] != b[0]:
         return "%r vs %r" % (a[:2], b[:2])
+    if len(a) > 4 and len(b) > 4 and a[4] != b[4]:
+        return "the compiled rulebook this hardware gets differs"
     for name, x, y in (("diff", a[1], b[1]), ("commands", a[2], b[2]), ("ordered config", a[3], b[3])):
         if x != y:
             return "%s differ: %r vs %r" % (name, str(x)[:200], str(y)[:200])
